@@ -26,6 +26,28 @@ def run(fx, rep, tier):
     rule_use(fx, rep)
     rule_wire(fx, rep, new, info)
     rule_select(fx, rep)
+    rule_poll(fx, rep)
+
+
+def rule_poll(fx, rep):
+    """The limits only bind if they are polled: both search functions (negamax and quiescence - a single quiescence tree can be
+    arbitrarily large) consult TimeStrategy::should_stop on entry and abort on it. This is the C09-POLL clause, re-reported here
+    as the premise of "returns its move before the clock runs out" (seed C14-4a); the wall-clock statement itself stays undecided."""
+    import core
+    import pC09
+    sub = type(rep)(rep.prop, rep.tier)
+    q = core.QUIET
+    core.QUIET = True
+    try:
+        pC09.rule_poll(fx, sub)
+    finally:
+        core.QUIET = q
+    vs = [v for v in sub.violations if v["key"].startswith("C09-POLL")]
+    for v in vs:
+        rep.violation("C14-POLL", v["key"].replace("C09-POLL", "C14-POLL"), v["msg"] + " (the time limits are then not honoured inside that part of the tree)", v["site"])
+    rep.obligations += sub.obligations
+    rep.discharged += sub.discharged
+    rep.rule("C14-POLL", sub.obligations, 2, not vs, "time limits polled by both search functions (shared with C09-POLL)")
 
 
 GO_FIELDS = ("wtime", "btime", "winc", "binc", "movestogo", "movetime")
@@ -611,6 +633,8 @@ S = "src/engine/search/mod.rs"
 U = "src/engine/uci/mod.rs"
 P = "src/engine/uci/parser.rs"
 MUTANTS = [
+    {"name": "quiescence no longer polls the time limits (seed C14-4a)", "expect": "C14-POLL",
+     "edits": [("src/engine/search/quiescence.rs", "    if ctx.time_control.should_stop(ctx.nodes_visited) {\n        return Err(());\n    }\n\n", "")]},
     {"name": "increments or movestogo alone select the clock search over movetime (seed C14-3)", "expect": "C14-SELECT/ExactTime-as-Clocks",
      "edits": [("src/engine/uci/mod.rs", "                if wtime.is_some() || btime.is_some() {\n                    time_control = TimeControl::Clocks(clocks);", "                if wtime.is_some() || btime.is_some() || winc.is_some() || binc.is_some() || movestogo.is_some() {\n                    time_control = TimeControl::Clocks(clocks);")]},
     {"name": "movetime beats the clocks", "expect": "C14-SELECT/Clocks-as-ExactTime",
